@@ -183,3 +183,64 @@ def ForAll(fn):
 
 
 ForAll.ctr = 0
+
+
+class IdSeq(Maker):
+    """immutable tuple of abstract elements (each element an integer identity), unbounded symbolic length.
+    Used for co_consts / co_names style tables: only positions and identities matter."""
+    def __call__(self, eng, name):
+        a = z3.Array(name, z3.IntSort(), z3.IntSort())
+        n = z3.Int(name + "!len")
+        s = SSeq(n, lambda i: SInt(z3.Select(a, i)), kind="tuple", base=(name, a, n))
+        return s, [n >= 0]
+
+    def examples(self, rng, n):
+        return [tuple(1000 + i for i in range(rng.randint(0, 6))) for _ in range(8)]
+
+
+class IdTuple(Maker):
+    """python tuple of abstract elements with *bounded* length 0..maxlen (the engine forks on the length).
+    Bounded: stated wherever it is used."""
+    def __init__(self, maxlen=2, base=2000, minlen=0):
+        self.maxlen = maxlen
+        self.base = base
+        self.minlen = minlen
+
+    def __call__(self, eng, name):
+        ids = [SInt(z3.Int("%s!%d" % (name, i))) for i in range(self.maxlen)]
+        if self.minlen == self.maxlen:
+            return tuple(ids), []
+        n = z3.Int(name + "!len")
+        eng.run.pc.append(z3.And(n >= self.minlen, n <= self.maxlen))
+        for L in range(self.minlen, self.maxlen):
+            if eng.decide(n == L):
+                return tuple(ids[:L]), []
+        return tuple(ids), []
+
+    def examples(self, rng, n):
+        out = []
+        for _ in range(10):
+            L = rng.randint(self.minlen, self.maxlen)
+            out.append(tuple(self.base + rng.randint(0, 2) for _ in range(L)))
+        return out
+
+
+class OneOf(Maker):
+    """value chosen by the engine among concrete alternatives (forks)"""
+    def __init__(self, *alts):
+        self.alts = alts
+
+    def __call__(self, eng, name):
+        t = z3.Int(name + "!alt")
+        eng.run.pc.append(z3.And(t >= 0, t < len(self.alts)))
+        for i, a in enumerate(self.alts[:-1]):
+            if eng.decide(t == i):
+                return a(eng, name) if isinstance(a, Maker) else (a, [])
+        a = self.alts[-1]
+        return a(eng, name) if isinstance(a, Maker) else (a, [])
+
+    def examples(self, rng, n):
+        out = []
+        for a in self.alts:
+            out += a.examples(rng, n) if isinstance(a, Maker) else [a]
+        return out
